@@ -24,6 +24,10 @@ func serverCases(r *core.Run) {
 	}
 	for w := 0; w < r.N(4, 60); w++ {
 		mode := []string{"dn", "serial"}[w%2]
+		// certificate chain shape of the world: client certificates issued by the root directly / by an
+		// intermediate CA (clients send leaf + intermediate) / the same with every client appending the (public)
+		// certificate of client A to what it sends
+		shape := []string{"", "+inter", "+inter+other"}[w%3]
 		fam, kinds := certFamily(rd)
 		pick := func(kind string) (certDesc, bool) {
 			for i, k := range kinds {
@@ -67,16 +71,25 @@ func serverCases(r *core.Run) {
 		toks := identTokens(world)
 		h := fmt.Sprintf("srv%d", w)
 		caSeed := rd.Bytes(8)
-		r.Begin(fmt.Sprintf("srv-%s-%s-%x", mode, bKind, caSeed), true, "entry:server", "mode:"+mode, "relative:"+bKind)
-		if out := r.Impl(fmt.Sprintf("C02.srv.new %s %s %s %s", h, mode, core.Hex(caSeed), toks)); !r.Check(out == "ok", "srv-start", "the translator did not start: "+out) {
+		r.Begin(fmt.Sprintf("srv-%s%s-%s-%x", mode, shape, bKind, caSeed), true, "entry:server", "mode:"+mode, "relative:"+bKind, "chain:direct"+shape)
+		if out := r.Impl(fmt.Sprintf("C02.srv.new %s %s %s %s", h, mode+shape, core.Hex(caSeed), toks)); !r.Check(out == "ok", "srv-start", "the translator did not start: "+out) {
 			continue
 		}
+		if strings.HasSuffix(shape, "+other") {
+			r.Impl(fmt.Sprintf("C02.srv.append %s %s", h, certs[0].tokens()))
+		}
+		mode += shape // the op lines carry the shape with the mode; extractor mode = the part in front of `+`
 		call := func(model bool, rpc string, conn int, forged string, data []byte, hash string) string {
 			line := fmt.Sprintf("C02.srv.grpc %s %s %s %s %s %s %s", h, rpc, mode, certs[conn].tokens(), forged, core.Hex(data), hash)
 			if model {
 				return r.Do(line + " " + toks)
 			}
 			return r.Impl(line)
+		}
+		// every value tokenized in this world so far: (identity of the CONNECTION it arrived on, value, token)
+		var tokHist []string
+		detok := func(conn int, forged string, tok []byte) string {
+			return r.Do(fmt.Sprintf("C02.srv.detok %s %s %s %s %s %d %s", h, mode, certs[conn].tokens(), forged, core.Hex(tok), len(tokHist), strings.Join(tokHist, " ")))
 		}
 		hmacOf := func(i int, m []byte) string {
 			return r.Do(fmt.Sprintf("C02.hash.gen %s %s", core.Hex(world[i].hmac), core.Hex(m)))
@@ -124,13 +137,14 @@ func serverCases(r *core.Run) {
 				if !r.Check(ok && !bytes.Equal(tok, v), "tokenize", "Tokenize on the server failed") {
 					continue
 				}
+				tokHist = append(tokHist, fmt.Sprintf("%s %s %s", core.Hex(ids[a]), core.Hex(v), core.Hex(tok)))
 				for _, forged := range forgeries {
-					out := call(false, "Detokenize", b, forged, tok, "none")
+					out := detok(b, forged, tok)
 					got, ok := okValue(out)
 					r.Check(!leaks(out, v, v[len(v)-markerLen:]) && ok && bytes.Equal(got, tok), "tls-forged-id",
 						fmt.Sprintf("Detokenize over the TLS connection of %s with ClientId field %s did not hand the token of %s back unchanged (Tokenize had ClientId %s): %s", names[b], forged[:min(12, len(forged))], names[a], forgedT[:min(12, len(forgedT))], trunc(out)))
 				}
-				out := call(false, "Detokenize", a, core.Hex(ids[b]), tok, "none")
+				out := detok(a, core.Hex(ids[b]), tok)
 				got, ok := okValue(out)
 				r.Check(ok && bytes.Equal(got, v), "tls-owner", "Detokenize over the owner's connection (request naming another id) did not return the value: "+trunc(out))
 				// HTTP: the same token over B's HTTPS connection
@@ -147,11 +161,12 @@ func serverCases(r *core.Run) {
 				r.Begin(fmt.Sprintf("srv-%s-planted-%d>%d-%x", mode, a, b, v[len(v)-markerLen:]), true, "entry:server-grpc", "rpc:Detokenize")
 				tok, ok := okValue(r.Impl(fmt.Sprintf("C02.srv.plant %s %s %s", h, core.Hex(ids[a]), core.Hex(v))))
 				if r.Check(ok, "tokenize", "planting a token failed") {
+					tokHist = append(tokHist, fmt.Sprintf("%s %s %s", core.Hex(ids[a]), core.Hex(v), core.Hex(tok)))
 					for _, forged := range forgeries {
-						out := call(false, "Detokenize", b, forged, tok, "none")
+						out := detok(b, forged, tok)
 						r.Check(!leaks(out, v, v[len(v)-markerLen:]), "tls-forged-id", fmt.Sprintf("Detokenize over the TLS connection of %s naming %s returned a value recorded for %s", names[b], forged[:min(12, len(forged))], names[a]))
 					}
-					out := call(false, "Detokenize", a, "none", tok, "none")
+					out := detok(a, "none", tok)
 					got, ok := okValue(out)
 					r.Check(ok && bytes.Equal(got, v), "tls-owner", "the owner's connection does not detokenize a value recorded for it elsewhere")
 				}
